@@ -94,7 +94,9 @@ def run(repo: Repo, rep: Report, tier: str) -> None:
         ev = repo.func("expression.py", "Expression.evaluate")
         rep.rule("C10.R5", "no state survives an evaluation: evaluate/evaluate_exp do not write to the Expression object (or reset before use)")
         cg = CallGraph(repo)
-        residue_rule(repo, rep, "C10.R5", cg, cg.closure([ev.key]), [ev.key])
+        # properties of the class are part of what an evaluation runs (self.tokens computed on first use): the call graph does not see attribute reads as calls
+        props = [f.key for f in repo.cls("Expression").methods.values() if any(norm(d).split(".")[-1] in ("property", "cached_property") for d in f.node.decorator_list)]
+        residue_rule(repo, rep, "C10.R5", cg, cg.closure([ev.key, *props]), [ev.key, *props])
     _rest(repo, rep, tier)
 
 
@@ -266,8 +268,9 @@ def _table_rules(repo: Repo, rep: Report, tier: str) -> None:
 
     # ---- R5
     cg = CallGraph(repo)
-    clo = cg.closure([ev.key])
-    residue_rule(repo, rep, R5, cg, clo, [ev.key])
+    props = [f.key for f in repo.cls("Expression").methods.values() if any(norm(d).split(".")[-1] in ("property", "cached_property") for d in f.node.decorator_list)]
+    clo = cg.closure([ev.key, *props])
+    residue_rule(repo, rep, R5, cg, clo, [ev.key, *props])
     # rename the generic key so that evidence reads naturally
     lookup_order_rule(repo, rep, R6)
 
